@@ -150,7 +150,7 @@ func bodyC11(c snapCase, x *vkit.Ctx) {
 			return
 		}
 		if !r.clockHist[rec.Clock] || !r.eventHist[rec.Event] || !r.queryHist[rec.Query] {
-			x.Violationf("clock-never-recorded", "%s: recovered clocks (%d,%d,%d) contain a value the history never recorded", desc, rec.Clock, rec.Event, rec.Query)
+			x.Violationf("clock-never-recorded", "%s: recovered clocks (%d,%d,%d) contain a value the history never recorded (member clocks %v, event %v, query %v); files %q", desc, rec.Clock, rec.Event, rec.Query, r.clockHist, r.eventHist, r.queryHist, img.Files)
 			return
 		}
 		prevIdx, prevClock, prevEvent, prevQuery, prevDesc = found, rec.Clock, rec.Event, rec.Query, desc
